@@ -332,7 +332,41 @@ class Evaluator:
 
     def st_For(self, st: ast.For, s: State):
         it = self.expr(st.iter, s)
+        if it[0] in ('tuple', 'list') and 1 <= len(it[1]) <= 4 and \
+                all(_is_literal(x) for x in it[1]):
+            return self._const_loop(st, s, it)
         return self._loop(st, s, it, None)
+
+    def _const_loop(self, st: ast.For, s: State, it: Term):
+        """A loop over a short literal collection is executed exactly, one iteration per
+        element with the loop variable bound to that literal (``for name in ('a', 'b')``)."""
+        uid = (getattr(st, 'lineno', 0), getattr(st, 'col_offset', 0))
+        outs: List[State] = []
+        cur = [s]
+        broken: List[State] = []
+        for k, elem in enumerate(it[1]):
+            nxt: List[State] = []
+            for si in cur:
+                self.assign(st.target, elem, si, st)
+                old_ctx = si.ctx
+                si.ctx = si.ctx + (('loop', uid + (('lit', k),), it),)
+                for b in self.block(st.body, [si]):
+                    b.ctx = old_ctx
+                    if b.status == 'break':
+                        b.status = 'normal'
+                        broken.append(b)
+                    elif b.status in ('return', 'raise'):
+                        outs.append(b)
+                    else:
+                        b.status = 'normal'
+                        nxt.append(b)
+            cur = nxt
+            if len(cur) > 64:
+                raise AnalysisError(f'{self.fn.qualname}: too many paths in a literal loop')
+        for si in cur:
+            si.events.append(Event('loopend', (uid, it), st, si.ctx))
+            outs += self.block(st.orelse, [si])
+        return outs + broken
 
     def st_While(self, st: ast.While, s: State):
         return self._loop(st, s, None, st.test)
@@ -650,8 +684,16 @@ class Evaluator:
             if args[0][0] == 'global':
                 s.types[args[1]] = args[0][1]
             return args[1]
+        # getattr(obj, 'name') with a constant name is the attribute itself
+        if f == ('global', 'builtins.getattr') and len(args) == 2 and not kws and \
+                args[1][0] == 'const' and isinstance(args[1][1], str):
+            return ('attr', args[0], args[1][1])
         t = ('call', f, args, kws)
         s.events.append(Event('call', (t,), e, s.ctx))
+        # setattr(obj, 'name', v) with a constant name is an attribute store
+        if f == ('global', 'builtins.setattr') and len(args) == 3 and args[1][0] == 'const' and \
+                isinstance(args[1][1], str):
+            s.events.append(Event('setattr', (args[0], args[1][1], args[2], False), e, s.ctx))
         # list building through ``name.append(v)`` on a local list literal is tracked in the
         # environment (the element may mention the loop variable: one generic row)
         if isinstance(e.func, ast.Attribute) and e.func.attr == 'append' and \
@@ -759,6 +801,12 @@ def _assigned_names(fn: ast.FunctionDef) -> set:
 
 def _free_names(fn: ast.FunctionDef) -> set:
     return {n.id for n in ast.walk(fn) if isinstance(n, ast.Name)}
+
+
+def _is_literal(t: Term) -> bool:
+    if t[0] == 'const':
+        return True
+    return t[0] == 'tuple' and all(_is_literal(x) for x in t[1])
 
 
 def _freeze_env(env: Dict[str, Term], names: set) -> tuple:
